@@ -347,9 +347,14 @@ def q19f(depth: int, use_f: bool, unrelated: bool) -> str:
 
 
 # ---------------------------------------------------------------- map: one target per item, deterministic distinct valid names
+ITERS = [("list", lambda xs: list(xs)), ("tuple", lambda xs: tuple(xs)), ("generator", lambda xs: (x for x in xs)), ("iterator", lambda xs: iter(list(xs))),
+         ("zip unpacked by a generator", lambda xs: (a for a, b in zip(xs, xs))), ("dict keys", lambda xs: dict.fromkeys(xs).keys())]
+
+
 def _q19m(n, naming, dup):
     if not (q.in_range(n, 5) and q.in_range(naming, 4)):
         return q.SKIP
+    kind_label, mk_items = ITERS[q.SHARD.get("iter", 0)]
 
     def make(path):
         return AnonymousTarget(inputs=[path], outputs=[path + ".o"], options={}, group="g", spec="x")
@@ -379,9 +384,9 @@ def _q19m(n, naming, dup):
                 return "duplicate target name %s accepted" % pre
             except WorkflowError:
                 return ""
-        ts = wf.map(make, items, name=name)
+        ts = wf.map(make, mk_items(items), name=name)
         if len(ts) != n or len(wf.targets) != n:
-            return "%d items gave %d targets" % (n, len(ts))
+            return "%d items (given as a %s) gave %d targets" % (n, kind_label, len(ts))
         names = [t.name for t in ts]
         for nm in names:
             if not SPEC_NAME.fullmatch(nm):
@@ -416,5 +421,5 @@ QUERIES = [
     {"name": "Q19w", "fn": q19w, "shards": [{}], "timeout": 300,
      "bound": "workflow file named one of %s, loaded with the real load_workflow from the project directory / a nested sub-directory / an unrelated directory (real temporary files)" % (WF_FILES,)},
     {"name": "Q19f", "fn": q19f, "shards": [{}], "timeout": 400, "bound": "invoking directory = project root or nested 1..3 levels (symbolic depth), or unrelated directory with -f <absolute path>"},
-    {"name": "Q19m", "fn": q19m, "shards": [{}], "timeout": 400, "bound": "0..4 map items (symbolic count), 3 naming modes + a naming function that repeats a name (must be rejected), with/without a pre-existing target of the first generated name, evaluated twice"},
+    {"name": "Q19m", "fn": q19m, "shards": [{"iter": k} for k in range(len(ITERS))], "timeout": 400, "bound": "0..4 map items (symbolic count) given as list / tuple / generator / iterator / zip-generator / dict keys (one per shard), 3 naming modes + a naming function that repeats a name (must be rejected), with/without a pre-existing target of the first generated name, evaluated twice"},
 ]
